@@ -304,3 +304,19 @@ impl core::fmt::Display for Addr { fn fmt(&self, f: &mut core::fmt::Formatter<'_
 /// stands for a `format!(..)` whose text no clause specifies (drop D5)
 #[verifier::external_body]
 pub fn opaque_text() -> (r: String) { unimplemented!() }
+impl CanonicalAddr {
+    #[verifier::external_body]
+    pub fn as_slice(&self) -> (r: &[u8]) ensures r@ == self@ { unimplemented!() }
+}
+pub type QuerierWrapper<'a> = &'a Querier;
+pub open spec fn str_in(v: Seq<String>, x: Seq<char>) -> bool { exists|i: int| 0 <= i < v.len() && (#[trigger] v[i])@ == x }
+/// `Vec<String>::contains` (rewrite R23)
+#[verifier::external_body]
+pub fn vec_contains_str(v: &Vec<String>, s: &String) -> (r: bool)
+    ensures r == str_in(v@, s@)
+{ unimplemented!() }
+/// `v.retain(|x| x != &s)` (rewrite R24): keeps exactly the elements different from s
+#[verifier::external_body]
+pub fn vec_retain_ne(v: &mut Vec<String>, s: &String)
+    ensures forall|x: Seq<char>| #[trigger] str_in(final(v)@, x) == (str_in(old(v)@, x) && x != s@),
+{ unimplemented!() }
